@@ -109,14 +109,10 @@ def check_cached_key_pairing(repo, chk, rule="B-cachekey", only_key=None):
             chk.instance(rule, "data['%s']: stored by %s, which its preprocessor's __call__ never reaches - the key is never present, %d consumer branch(es) dead" % (key, ", ".join(f.qual for f in fs), len(consumers)), nontrivial=False)
             continue
         for f in consumers:
-            def _zip_calls(st_):
-                src = st_.iter if isinstance(st_, ast.For) else st_
-                return [c for c in ast.walk(src) if isinstance(c, ast.Call) and isinstance(c.func, ast.Name) and c.func.id == "zip"]
-
-            # a `for ... in zip(..)` loop, or a statement that materialises the pairing (pairs = list(zip(..)))
-            zips = [st for st in f.node.body if (isinstance(st, ast.For) and _zip_calls(st)) or (isinstance(st, (ast.Assign, ast.Expr, ast.Return)) and _zip_calls(st))]
-            if not zips:
-                chk.instance(rule, "data['%s'] read by %s: not zipped with another per-chain list" % (key, f.qual), nontrivial=False)
+            # loops of the consumer's body in which an entry of the cached list meets a per-chain quantity
+            loops = [st for st in f.node.body if isinstance(st, ast.For)]
+            if not loops:
+                chk.instance(rule, "data['%s'] read by %s: no loop pairs it with another per-chain list" % (key, f.qual), nontrivial=False)
                 continue
             bad = None
             n_chain = 3
@@ -163,27 +159,51 @@ def check_cached_key_pairing(repo, chk, rule="B-cachekey", only_key=None):
                 if so is not None:
                     env["self"] = so
                 tr = Translator(repo, hooks=hooks, max_depth=2)
-                last = max(zips, key=lambda s_: s_.lineno)
+                def probes_in(v, out):
+                    if isinstance(v, tuple) and len(v) == 2 and isinstance(v[0], str) and isinstance(v[1], int):
+                        out.append(v)
+                    elif isinstance(v, (list, tuple)):
+                        for x in v:
+                            probes_in(x, out)
+
+                met = 0
                 try:
                     for st in f.node.body:
-                        if st in zips:
-                            zc = _zip_calls(st)[0]
-                            lists = [tr.eval(a_, env, f.mod, 0) for a_ in zc.args]
-                            labels = []
-                            for l in lists:
-                                if isinstance(l, (list, tuple)) and all(isinstance(x, tuple) and len(x) == 2 for x in l):
-                                    labels.append([int(x[1]) for x in l])
-                                else:
-                                    raise AnalysisError("%s: an operand of the zip over data['%s'] is not a per-chain list of probes: %r" % (f.qual, key, l))
-                            if any(lab != labels[0] for lab in labels[1:]) and bad is None:
-                                bad = (st.lineno, "with chains_idx = %s the zipped per-chain lists (line %d) name the chains %s" % (sel, st.lineno, " vs ".join(str(x) for x in labels)))
-                            if st is last:
-                                break
-                            if isinstance(st, ast.For):
-                                continue   # the loop body works on tensors: not needed for the pairing
+                        if st in loops:
+                            # trace the loop: bind the target per item, run the simple bindings of the body (j = cached[idx]),
+                            # and ask which chains' probes sit together in one iteration; tensor arithmetic is skipped
+                            try:
+                                items = tr._iterable(tr.eval(st.iter, env, f.mod, 0), st, 0)
+                            except Unmodelled:
+                                continue
+                            for it_ in list(items):
+                                loc = dict(env)
+                                tr.assign(st.target, it_, loc, f.mod, 0)
+                                names_t = {x.id for x in ast.walk(st.target) if isinstance(x, ast.Name)}
+                                for b_ in st.body:
+                                    if isinstance(b_, ast.Assign) and len(b_.targets) == 1 and isinstance(b_.targets[0], (ast.Name, ast.Tuple)):
+                                        try:
+                                            tr.exec_stmt(b_, loc, f.mod, 0)
+                                            names_t |= {x.id for x in ast.walk(b_.targets[0]) if isinstance(x, ast.Name)}
+                                        except Unmodelled:
+                                            pass
+                                found = []
+                                for nm_ in sorted(names_t):
+                                    probes_in(loc.get(nm_), found)
+                                kinds = {t_ for t_, _ in found}
+                                if "cached" in kinds and len(kinds) > 1:
+                                    met += 1
+                                    chains_ = {k_ for _, k_ in found}
+                                    if len(chains_) > 1 and bad is None:
+                                        bad = (st.lineno, "with chains_idx = %s one iteration of the loop at line %d brings together %s" % (sel, st.lineno, ", ".join("%s of chain %d" % (t_, k_) for t_, k_ in found)))
+                            if st is loops[-1]:
+                                break   # what follows works on the tensors of the loop results
+                            continue
                         tr.exec_stmt(st, env, f.mod, 0)
                 except Unmodelled as e:
-                    raise AnalysisError("%s cannot be interpreted up to its zip over data['%s']: %s" % (f.qual, key, e))
+                    raise AnalysisError("%s cannot be interpreted up to its loops over data['%s']: %s" % (f.qual, key, e))
+                if met == 0:
+                    raise AnalysisError("%s: no loop iteration was seen to bring an entry of data['%s'] together with a per-chain quantity (selection %s)" % (f.qual, key, sel))
             n_checked += 1
             chk.oblige(rule, "%s pairs data['%s'] with quantities of the same chains for 3 selections" % (f.qual, key), bad is None)
             if bad:
